@@ -36,7 +36,7 @@ def run(ev, tier, seen, record):
     ev.configs += [n for n, _ in b]
     covered = ["ascon-asm-x86-64.S", "ascon-x2-asm-x86-64.S", "ascon-x3-asm-x86-64.S", "ascon-x4-asm-x86-64.S", "ascon-word-asm-x86-64.S"]
     uncovered = []
-    for mod in ("c18_i386", "c18_emu"):
+    for mod in ("c18_i386", "c18_emu", "c18_asm"):
         try:
             m = __import__(mod)
             cov, unc = m.run(ev, tier, seen, record)
@@ -57,7 +57,7 @@ def replay(path, obj):
         if mode.startswith("guard"):
             env["VERIF_GUARD"] = mode[5:]
         return rcrun.replay_file(PROP, path, lambda cfg: b[cfgname], env_extra=env)
-    for mod in ("c18_i386", "c18_emu"):
+    for mod in ("c18_i386", "c18_emu", "c18_asm"):
         try:
             m = __import__(mod)
             r = m.replay(path, obj)
